@@ -62,6 +62,8 @@ type Tr struct {
 	opaqueAtoms  map[string][]opaqueInst  // opaque function symbol -> applications seen so far
 	footTemplates map[string]footTemplate // opaque function symbol -> read-set template of its definition
 	footUsed      map[string]bool
+	cbParam       ssa.Value     // callback parameter of an iterating function under verification (callback.go)
+	cbEnv         map[string]EV // its parameter bindings
 	stableUsed   map[string]bool
 	pendingOpaque *opaqueInst
 }
